@@ -4,7 +4,7 @@ import PPLV.PolyFull.ProofsGlue11
 /-!
 # Integration stage — the preparation of `process_pending_generators` keeps the double description pair
 
-The dual of part 10: `sortKeepsPairG_of_ncols`.
+The dual of part 10: `sortKeepsPairG`.
 -/
 namespace PPLV.PolyFull
 open PPLV.Lin PPLV.PolyOps
@@ -95,10 +95,10 @@ theorem osg_keeps (nnc : Bool) (n : Nat) (cs : List Row) (y : FPoly) (hn : y.p.n
   · rw [hnpE]
     have := hcore.permG hp1 y.obtainSortedGeneratorsWithSatG.satC y.obtainSortedGeneratorsWithSatG.satG
       (fun h' => (by cases h'))
-    exact ⟨this.sound, this.complete, this.minC, this.minG, fun _ => hVC2.1, fun _ => hVG2.1⟩
+    exact ⟨this.sound, this.complete, this.minC, this.minG, fun _ => hVC2, fun _ => hVG2⟩
 
-/-- **the preparation of `process_pending_generators` keeps the pair**, given the widths -/
-theorem sortKeepsPairG_of_ncols (hN : NcolsFact) : SortKeepsPairG := by
+/-- **the preparation of `process_pending_generators` keeps the pair** -/
+theorem sortKeepsPairG : SortKeepsPairG := by
   intro x S hx he hgp
   have hcan := legal_gPend hx.legal hgp
   obtain ⟨hcm, hgm, hsat⟩ := (canPend_iff _).mp hcan
@@ -112,14 +112,13 @@ theorem sortKeepsPairG_of_ncols (hN : NcolsFact) : SortKeepsPairG := by
   have hfpG := (hx.fpG he hgu).1
   have hnpC : x.npC = x.p.cs.rows := by unfold FPoly.npC; rw [hfpC, List.take_length]
   have E := hx.eng he hcan
-  obtain ⟨N1, N2⟩ := hN x S hx he hcan
-  rw [hnpC] at E N1
+  rw [hnpC] at E
   have hcore : EnginePair x.p.nnc x.p.dim x.p.cs.rows x.npG false false BitMat.clear BitMat.clear :=
     (E.dropC _).dropG _
   have hyp : (ppgStep0 x).p = x.p := by unfold ppgStep0; split <;> rfl
   have hyC : (ppgStep0 x).satC = x.satC := by unfold ppgStep0; split <;> rfl
   have hynp : (ppgStep0 x).npG = x.npG := by unfold FPoly.npG; rw [hyp]
-  have hVC : x.p.st.satC = true → VGl x.p.nnc x.p.cs.rows x.npG x.satC := fun h => ⟨E.satC h, N1 h⟩
+  have hVC : x.p.st.satC = true → VGl x.p.nnc x.p.cs.rows x.npG x.satC := fun h => E.satC h
   have hVG : VCl x.p.nnc x.p.cs.rows x.npG (ppgStep0 x).satG := by
     unfold ppgStep0
     split
@@ -132,7 +131,7 @@ theorem sortKeepsPairG_of_ncols (hN : NcolsFact) : SortKeepsPairG := by
       exact (hVC hC).transpose
     · rename_i h
       have hG : x.p.st.satG = true := by simpa [FPoly.st] using h
-      exact ⟨E.satG hG, N2 hG⟩
+      exact E.satG hG
   rw [ppgPrepared_eq]
   cases hs : x.p.gs.sorted
   · have e : (if !(ppgStep0 x).p.gs.sorted then (ppgStep0 x).obtainSortedGeneratorsWithSatG
@@ -151,6 +150,6 @@ theorem sortKeepsPairG_of_ncols (hN : NcolsFact) : SortKeepsPairG := by
     rw [e]
     refine ⟨by rw [hyp]; exact hfpG, fun r => by rw [hyp], fun r => by rw [hynp], ?_⟩
     rw [hynp, hyC, hyp]
-    exact ⟨E.sound, E.complete, E.minC, E.minG, E.satC, fun _ => hVG.1⟩
+    exact ⟨E.sound, E.complete, E.minC, E.minG, E.satC, fun _ => hVG⟩
 
 end PPLV.PolyFull
